@@ -149,6 +149,13 @@ def check_roundtrip(spec, ctx):
         yp = CDSInterval.from_dict(copy.deepcopy(xp.to_dict()), parent_of(spec))
         same_object(ctx, "dict_roundtrip_of_phase_built_cds", xp, yp, with_seq)
         ctx.label("cds_built_from_phases")
+    # the exported qualifiers are the source's (equality of two exports cannot notice a key both of them lost)
+    if kind in ("feat", "tx", "gene", "fc", "collection") and "qualifiers" in o:
+        def qn(q):
+            return {str(k_): sorted(set(str(v_) for v_ in vs_)) for k_, vs_ in (q or {}).items()}
+        ctx.eq("to_dict_qualifiers_are_the_source_qualifiers", qn(x.to_dict().get("qualifiers")), qn(o.get("qualifiers")))
+        if any(len(vs_) == 0 or "" in vs_ for vs_ in (o.get("qualifiers") or {}).values()):
+            ctx.label("valueless_qualifier")
     # dictionary export/import
     y = CLS[kind].from_dict(copy.deepcopy(x.to_dict()), parent_of(spec))
     same_object(ctx, "dict_roundtrip", x, y, with_seq)
@@ -357,6 +364,9 @@ def strat_obj(draw, tier="quick", kinds=("collection", "collection", "collection
         o["start"] = draw(st.integers(w_lo, max(w_lo, lo_m)))
         o["end"] = draw(st.integers(hi, max(hi, w_hi)))
     sp["derive_first"] = draw(st.integers(0, 2)) == 0
+    if kind in ("feat", "tx", "gene", "fc", "collection") and draw(st.integers(0, 3)) == 0:
+        # flag qualifiers: a key without a value, as Biopython delivers /pseudo ([""]), or with an empty list
+        o["qualifiers"] = dict(o.get("qualifiers") or {}, **{draw(st.sampled_from(["pseudo", "partial", "ribosomal_slippage"])): draw(st.sampled_from([[""], [], ["", "x"]]))})
     return sp
 
 
